@@ -152,7 +152,9 @@ CHECKS["C02"]["engines"] = [{"fn": "e2e", "tiers": ["quick", "thorough"]}, {"fn"
 CHECKS["C01"]["engines"] = [{"fn": "e2e", "tiers": ["quick", "thorough"]}]
 CHECKS["C19"]["engines"] = [{"fn": "e2e", "tiers": ["quick", "thorough"]}]
 CHECKS["C06"]["engines"] = [{"fn": "e2e", "tiers": ["quick", "thorough"]}, {"fn": "e2e_asan", "tiers": ["thorough"]}]
-for _c in ("C01", "C02", "C19"):
+CHECKS["C04"]["engines"] = [{"fn": "e2e", "tiers": ["quick", "thorough"]}]
+CHECKS["C20"]["engines"] = [{"fn": "e2e", "tiers": ["quick", "thorough"]}]
+for _c in ("C01", "C02", "C04", "C06", "C19", "C20"):
     CHECKS[_c]["rule"] += E2E_NOTE
     CHECKS[_c]["assumptions"] = CHECKS[_c]["assumptions"] + ["real-process layer: `unshare -n` works in the sandbox (otherwise runs are serialised because port 6881 is a constant); real time is only used for watchdogs and for the idle criterion"]
 
